@@ -234,6 +234,12 @@ class SymCtx(_Base):
             return cond
         return self.eng.must_hold(bterm(cond))
 
+    def concrete(self, x, lo=None, hi=None):
+        """case-split a symbolic int into its feasible values on this path"""
+        if isinstance(x, SymInt):
+            return self.eng.concretize(x.term, lo, hi)
+        return x
+
     def fresh_int(self, base, lo=None, hi=None):
         self.eng.fresh_n += 1
         return self.int("%s#%d" % (base, self.eng.fresh_n), lo, hi)
@@ -316,6 +322,9 @@ class ConcCtx(_Base):
 
     def must(self, cond):
         return bool(cond)
+
+    def concrete(self, x, lo=None, hi=None):
+        return x
 
     def fresh_int(self, base, lo=None, hi=None):
         self.fresh_n += 1
